@@ -44,6 +44,8 @@ def _target(p, name):
         return p.index(p.id("t"), p.num(2))
     if name == "t[a]":
         return p.index(p.id("t"), p.id("a"))
+    if name == "t[b]":
+        return p.index(p.id("t"), p.id("b"))
     raise ValueError(name)
 
 
@@ -87,7 +89,9 @@ def _aliases(ts):
     """reject target lists that may alias (same variable twice; t[a] next to t[1]/t[2]/a)"""
     if len(set(ts)) != len(ts):
         return True
-    if "t[a]" in ts and ("t[1]" in ts or "a" in ts):
+    # t[a] next to the target a is NOT aliasing: keys are evaluated before any store
+    # (the property states it); t[a] next to t[1] is (a == 1 names the same slot)
+    if "t[a]" in ts and "t[1]" in ts:
         return True
     return False
 
@@ -124,7 +128,9 @@ def gen_assign(rng, n, exhaustive2=False):
     # classic swaps and rotations on every kind
     for ts, srcs in ((["a", "b"], ["b", "a"]), (["a", "b", "c"], ["c", "a", "b"]), (["a", "b", "c"], ["b", "c", "a"]),
                      (["a", "ga"], ["ga", "a"]), (["t.x", "t.y"], ["t.y", "t.x"]), (["t[1]", "t[2]"], ["t[2]", "t[1]"]),
-                     (["ua", "ub"], ["ub", "ua"]), (["a", "t.x"], ["t.x", "a"]), (["t[a]", "b"], ["b", "a"])):
+                     (["ua", "ub"], ["ub", "ua"]), (["a", "t.x"], ["t.x", "a"]), (["t[a]", "b"], ["b", "a"]),
+                     (["t[a]", "a"], ["k", "a+1"]), (["a", "t[a]"], ["a+1", "k"]), (["t[a]", "t[b]", "a", "b"], ["k", "K300", "b", "a"]),
+                     (["t[a]", "a", "b"], ["b", "c", "a"])):
         for cl in (False, True):
             out.append(assign_case(ts, srcs, cl))
     while len(out) < n:
@@ -306,7 +312,16 @@ def forin_cases(rng, n):
               p.do(p.block([p.local(["s1", "s2", "s3", "s4", "s5"], [p.str("stale1"), p.str("stale2"), p.str("stale3"), p.str("stale4"), p.str("stale5")])]))]
         nvals = rng.randint(1, 4)
         kind = rng.random()
-        if kind < 0.5:
+        if kind < 0.15:
+            # an iterator whose first result is false on some step: only nil ends the loop
+            itf = p.func(["s", "c"], p.block([p.assign([p.id("cnt")], [p.bin("+", p.id("cnt"), p.num(1))]),
+                                              p.if_([p.bin("==", p.id("cnt"), p.num(1))], [p.block([p.ret([p.false(), p.str("first-is-false")])])]),
+                                              p.if_([p.bin("==", p.id("cnt"), p.num(2))], [p.block([p.ret([p.num(0), p.str("zero")])])]),
+                                              p.ret([p.nil()])]))
+            exprs = [itf]
+        elif kind < 0.25:
+            exprs = [p.call(p.id("pairs"), [p.table([("k", p.false(), p.str("f")), ("k", p.num(0), p.str("z"))])])]
+        elif kind < 0.5:
             exprs = [p.id("it"), p.str("S"), p.num(0), p.str("extra")][:nvals]
         elif kind < 0.75:
             exprs = [p.id("next"), p.table([("p", p.num(7)), ("p", p.num(8))]), p.nil(), p.num(1)][:max(2, nvals)]
